@@ -7,7 +7,8 @@
        partial results (exact arithmetic; the rounding of a re-associated floating-point sum is modelled, not verified).
    (3) The number of threads used on a level lies between 1 and the configured maximum. *)
 From Coq Require Import List Bool Permutation Reals ZArith Lia.
-From GMGP Require Import ParDefs ParDeterminism KernelDefs.
+From GMGP Require Import Scalar ScalarR ParDefs ParDeterminism KernelDefs KernelTie.
+From GMGPGen Require Import VecOpsGen.
 Import ListNotations.
 
 Theorem C12_conflict_free_tasks_commute : forall (cell V : Type) (a b : atask cell V) (s : state cell V),
@@ -37,6 +38,54 @@ Theorem C12_partial_sums_in_any_order : forall l l' : list R, Permutation l l' -
 Proof. exact sum_permutation. Qed.
 Theorem C12_chunked_max : forall chunks : list (list R), rmax0 (map rmax0 chunks) = rmax0 (concat chunks).
 Proof. exact chunked_max. Qed.
+
+(* ---- the vector kernels as translator T6 regenerates them from vector_operations.h (loop body, reduction clause, threshold) ---- *)
+(* the sequential loop of every kernel is its mathematical definition, in ANY scalar arithmetic (so also for IEEE doubles,
+   below and above the threshold: the same loop body runs in both cases) *)
+Theorem C12_generated_kernels_are_definitions : forall (S : Sc) (a b : S) (x y : list S),
+  map (fun p => gen_add_elem (fst p) (snd p)) (combine x y) = k_add x y /\
+  map (fun p => gen_subtract_elem (fst p) (snd p)) (combine x y) = k_subtract x y /\
+  map (fun p => gen_linear_combination_elem a b (fst p) (snd p)) (combine x y) = k_lincomb a x b y /\
+  map (fun v => gen_multiply_elem a v) x = k_multiply x a /\
+  map (fun e => gen_assign_elem a e) x = map (fun _ => a) x /\
+  fold_left (fun acc p => gen_dot_product_step acc (fst p) (snd p)) (combine x y) gen_dot_product_init = k_dot x y /\
+  fold_left (fun acc v => gen_l1_norm_step acc v) x gen_l1_norm_init = k_l1 x /\
+  fold_left (fun acc v => gen_l2_norm_squared_step acc v) x gen_l2_norm_squared_init = k_l2sq x /\
+  fold_left (fun acc v => gen_infinity_norm_step acc v) x gen_infinity_norm_init = k_inf x.
+Proof.
+  intros S a b x y.
+  exact (conj (gen_add_is_definition x y) (conj (gen_subtract_is_definition x y) (conj (gen_linear_combination_is_definition a b x y)
+        (conj (gen_multiply_is_definition a x) (conj (gen_assign_is_definition a x) (conj (gen_dot_product_is_definition x y)
+        (conj (gen_l1_norm_is_definition x) (conj (gen_l2_norm_squared_is_definition x) (gen_infinity_norm_is_definition x))))))))).
+Qed.
+
+(* the reduction clauses name the operator the loop body accumulates with; every kernel switches at n > 10 000 *)
+Theorem C12_generated_clauses :
+  gen_dot_product_reduction = RedPlus /\ gen_l1_norm_reduction = RedPlus /\ gen_l2_norm_squared_reduction = RedPlus /\
+  gen_infinity_norm_reduction = RedMax /\
+  Forall (fun t => t = 10000%Z) [gen_assign_threshold; gen_add_threshold; gen_subtract_threshold; gen_linear_combination_threshold;
+                                 gen_multiply_threshold; gen_dot_product_threshold; gen_l1_norm_threshold; gen_l2_norm_squared_threshold;
+                                 gen_infinity_norm_threshold].
+Proof. exact gen_clauses. Qed.
+
+(* the OpenMP reduction (every thread folds its chunk from the initial value, partial results combined with the operator)
+   returns what the sequential loop returns, for every partition into chunks (exact arithmetic) *)
+Theorem C12_generated_dot_product_any_chunking : forall chunks : list (list (R * R)),
+  rsum (map (fun c => fold_left (fun acc p => @gen_dot_product_step Rsc acc (fst p) (snd p)) c (@gen_dot_product_init Rsc)) chunks)
+  = fold_left (fun acc p => @gen_dot_product_step Rsc acc (fst p) (snd p)) (concat chunks) (@gen_dot_product_init Rsc).
+Proof. exact gen_dot_product_reduction_chunked. Qed.
+Theorem C12_generated_l1_norm_any_chunking : forall chunks : list (list R),
+  rsum (map (fun c => fold_left (fun acc v => @gen_l1_norm_step Rsc acc v) c (@gen_l1_norm_init Rsc)) chunks)
+  = fold_left (fun acc v => @gen_l1_norm_step Rsc acc v) (concat chunks) (@gen_l1_norm_init Rsc).
+Proof. exact gen_l1_norm_reduction_chunked. Qed.
+Theorem C12_generated_l2_norm_squared_any_chunking : forall chunks : list (list R),
+  rsum (map (fun c => fold_left (fun acc v => @gen_l2_norm_squared_step Rsc acc v) c (@gen_l2_norm_squared_init Rsc)) chunks)
+  = fold_left (fun acc v => @gen_l2_norm_squared_step Rsc acc v) (concat chunks) (@gen_l2_norm_squared_init Rsc).
+Proof. exact gen_l2_norm_squared_reduction_chunked. Qed.
+Theorem C12_generated_infinity_norm_any_chunking : forall chunks : list (list R),
+  rmax0 (map (fun c => fold_left (fun acc v => @gen_infinity_norm_step Rsc acc v) c (@gen_infinity_norm_init Rsc)) chunks)
+  = fold_left (fun acc v => @gen_infinity_norm_step Rsc acc v) (concat chunks) (@gen_infinity_norm_init Rsc).
+Proof. exact gen_infinity_norm_reduction_chunked. Qed.
 
 (* threads per level *)
 Theorem C12_threads_on_level_in_range : forall maxT q : Z, (1 <= maxT)%Z ->
